@@ -22,6 +22,10 @@ ASSUMPTIONS = [
 V3 = (0.0, 1.0, 2.0)
 A4 = (-1.0, 0.0, 1.0, 2.0)
 B2 = (0.0, 1.0)
+# near-ties: adjacent floats and 1e-12-relative neighbours at three magnitudes (Pareto comparator only; for the epsilon
+# comparator such pairs are inside "rounding error", where the statement promises nothing)
+import math as _m
+NEAR = (1.0, _m.nextafter(1.0, 2.0), 1.0 + 1e-12, 1000.0, _m.nextafter(1000.0, 2000.0), -1e-3, -1e-3 * (1 + 1e-12))
 MARK = (False, True)
 EPS_LISTS = ([0.1], [0.1, 0.1], [0.01, 5.0], 0.25, [1e-6], [1e3], [0.3, 0.7, 0.9])
 
@@ -182,6 +186,9 @@ def run(tier, seed):
         shards += [("pairs", spec, A4, 1), ("pairs", spec, A4, 2), ("pairs", spec, V3, 3), ("pairs", spec, B2, 4)]
         if tier == "thorough":
             shards += [("pairs", spec, A4, 3), ("pairs", spec, B2, 5), ("pairs", spec, B2, 6)]
+    shards += [("pairs", "pareto", NEAR, 1), ("pairs", "pareto", NEAR, 2)]
+    if tier == "thorough":
+        shards += [("pairs", "pareto", NEAR, 3)]
     shards += [("built", V3, 1), ("built", V3, 2), ("built", B2, 3)]
     if tier == "thorough":
         shards += [("built", V3, 3)]
@@ -189,5 +196,6 @@ def run(tier, seed):
     col = run_shards(_shard, shards)
     extra = {"exhaustive": True,
              "alphabets": {"A4": A4, "V3": V3, "B2": B2, "markers": MARK, "epsilons": [repr(e) for e in EPS_LISTS]},
-             "bounds": "pairs+triples: A4^1, A4^2, V3^3, {0,1}^4 (thorough: A4^3, {0,1}^5, {0,1}^6) x markers"}
+             "bounds": "pairs+triples: A4^1, A4^2, V3^3, {0,1}^4, near-tie alphabet NEAR^1, NEAR^2 for Pareto (thorough: A4^3, {0,1}^5, {0,1}^6, NEAR^3) x markers",
+             "near_tie_alphabet": [repr(v) for v in NEAR]}
     return col, extra
